@@ -4,7 +4,7 @@ EXTENDS Integers, Sequences, TLC, Json
 VARIABLE c
 Res == {[r |-> "ident", cap |-> 512], [r |-> "number", cap |-> 512], [r |-> "string", cap |-> 512],
         [r |-> "ticks", cap |-> 4], [r |-> "ident_dots", cap |-> 512], [r |-> "ident_slashes", cap |-> 512], [r |-> "macro_name", cap |-> 512], [r |-> "macro_body", cap |-> 1024],
-        [r |-> "macro_params", cap |-> 1024], [r |-> "macro_arg", cap |-> 1024], [r |-> "macro_arg_escapes", cap |-> 512], [r |-> "macro_args_total", cap |-> 4096],
+        [r |-> "macro_params", cap |-> 1024], [r |-> "macro_arg", cap |-> 1024], [r |-> "macro_arg_escapes", cap |-> 512], [r |-> "macro_args_total", cap |-> 4096], [r |-> "macro_call_commas", cap |-> 255],
         [r |-> "equ_text", cap |-> 512], [r |-> "define_text", cap |-> 1024], [r |-> "include_name", cap |-> 512],
         [r |-> "include_path", cap |-> 4096], [r |-> "include_paths_total", cap |-> 4096], [r |-> "operands", cap |-> 16],
         [r |-> "nest_macro", cap |-> 128], [r |-> "nest_if", cap |-> 128], [r |-> "nest_include", cap |-> 128],
@@ -13,6 +13,14 @@ Res == {[r |-> "ident", cap |-> 512], [r |-> "number", cap |-> 512], [r |-> "str
         [r |-> "resb", cap |-> 65536], [r |-> "data_fill", cap |-> 65536], [r |-> "db_items", cap |-> 512],
         [r |-> "label_count", cap |-> 512], [r |-> "line_length", cap |-> 4096], [r |-> "comment_length", cap |-> 4096],
         [r |-> "define_recursion", cap |-> 2], [r |-> "define_chain", cap |-> 128], [r |-> "include_self", cap |-> 1]}
+\* names of defines / equ / macros are stored with a one-byte length: lengths around 127 and 255, with a value of 123 characters
+NameRes == {[r |-> "equ_name", cap |-> 127], [r |-> "define_name", cap |-> 127], [r |-> "macro_name_value", cap |-> 127],
+            [r |-> "equ_name", cap |-> 255], [r |-> "define_name", cap |-> 255]}
+\* per-CPU token chains: every back end splits its operands itself (the renderer runs these for every CPU of cpu_list[] with
+\* that CPU's first corpus mnemonic): n suffixes glued to the mnemonic (add.s.s.s), n operator characters as an operand
+\* (tblrd *+*+), an operand list of n items, an open parenthesis as the last thing of the file (no newline)
+CpuRes == {"cpu_suffix_chain", "cpu_symbol_chain", "cpu_operand_list", "cpu_open_paren_eof", "cpu_open_bracket_eof"}
+CpuCases == {[res |-> r, cap |-> 16, len |-> n] : r \in CpuRes, n \in {3, 40, 600}}
 \* two nestings multiplied: a recursion that is unbounded in one dimension (a file or macro that includes / invokes itself)
 \* with len levels of the other nesting wrapped around every step; every such input is over the limit and must be an error,
 \* whatever the per-level limits are (the recursion of assemble() is as deep as the product)
@@ -30,6 +38,8 @@ Stmts  == {"set", "set_existing", "label", "db", "insn", "macro", "define", "equ
 PassCases == {[res |-> "pass_only", cap |-> 1, len |-> 1, guard |-> g, later |-> d, stmt |-> t] : g \in Guards, d \in Laters, t \in Stmts}
 Init == \/ c \in PassCases
         \/ c \in ProdCases
+        \/ c \in CpuCases
+        \/ \E x \in NameRes : \E n \in {x.cap - 2, x.cap - 1, x.cap, x.cap + 1, x.cap + 2} : c = [res |-> x.r, cap |-> x.cap, len |-> n]
         \/ \E x \in Res : \E n \in Lens(x.cap) \cup (IF x.r \in Deep THEN {8192, 300000} ELSE {}) :
           n >= 1 /\ c = [res |-> x.r, cap |-> x.cap, len |-> n]
 Next == FALSE /\ UNCHANGED c
